@@ -59,8 +59,7 @@ Theorem C12_in_order_hist : forall parse prefix h bucket now del_fail rest,
   in_order_hist parse prefix (h ++ Run bucket now del_fail :: rest) = true ->
   in_order_at parse prefix h bucket now = true /\ nodupb bucket = true /\
   distinct_ts (bucket_cands parse prefix bucket) = true.
-Proof. exact (fun parse prefix h bucket now df rest H =>
-  in_order_hist_at parse prefix [] _ h bucket now df rest H eq_refl). Qed.
+Proof. exact in_order_hist_run. Qed.
 Print Assumptions C12_in_order_hist.
 
 (* superseded files go: after a run whose Deletes all succeed, per instance at most ONE snapshot
@@ -109,8 +108,7 @@ Print Assumptions C12_disabled.
 Theorem C12_receive_only : forall c ok last,
   cf_enabled (syncer_cleanup_conf true c) = false /\ send_once_tail true ok last = (0%N, []) /\
   send_once_tail false false last = (0%N, []).
-Proof. exact (fun c ok last => conj (receive_only_disabled c)
-               (conj (receive_only_no_store ok last) (notify_only_after_store last))). Qed.
+Proof. exact receive_only_all. Qed.
 Print Assumptions C12_receive_only.
 
 (* slices.SortFunc is not stable, and its algorithm is not part of the property: with timestamps
